@@ -1,2 +1,13 @@
 -- family receive: C22 C23 C24 C25 C26.  Everything listed here must build: it is part of `lake build`.
 import Thanos.Driver.Receive
+import Thanos.Model.Quorum
+import Thanos.Model.RWv2
+import Thanos.Model.Gate
+import Thanos.Model.Capnp
+import Thanos.Lemmas.Quorum
+import Thanos.Lemmas.Capnp
+import Thanos.Props.C22
+import Thanos.Props.C23
+import Thanos.Props.C24
+import Thanos.Props.C25
+import Thanos.Props.C26
